@@ -16,7 +16,9 @@ Nodes == 1..N
 Lists == 1..NL
 
 Init0 == [hn |-> [l \in Lists |-> 0], t |-> [l \in Lists |-> -l], count |-> [l \in Lists |-> 0],
-          nx |-> [n \in Nodes |-> 0]]
+          nx |-> [n \in Nodes |-> 0],
+          \* which link member of the elements a list object is configured with (see DListOps)
+          offk |-> [l \in Lists |-> IF l % 2 = 1 THEN 1 ELSE 2]]
 
 Nx(s, x) == IF x > 0 THEN s.nx[x] ELSE s.hn[-x]
 SetNx(s, x, v) == IF x > 0 THEN [s EXCEPT !.nx[x] = v] ELSE [s EXCEPT !.hn[-x] = v]
@@ -63,7 +65,8 @@ Concat(s, d, src) ==
 (* cstl_slist_swap(a, b), a # b *)
 Swap(s, a, b) ==
     LET s1 == [s EXCEPT !.hn[a] = s.hn[b], !.hn[b] = s.hn[a], !.t[a] = s.t[b], !.t[b] = s.t[a],
-                        !.count[a] = s.count[b], !.count[b] = s.count[a]]
+                        !.count[a] = s.count[b], !.count[b] = s.count[a],
+                        !.offk[a] = s.offk[b], !.offk[b] = s.offk[a]]
         s2 == IF s1.count[a] = 0 THEN [s1 EXCEPT !.t[a] = -a] ELSE s1
     IN IF s2.count[b] = 0 THEN [s2 EXCEPT !.t[b] = -b] ELSE s2
 
@@ -171,7 +174,7 @@ OpSet(s, probes) ==
     \cup UNION {{[op |-> "insert", l |-> l, pe |-> pe, e |-> e] : pe \in SeqSet(q[l]), e \in Free(s)} : l \in Lists}
     \cup UNION {{[op |-> "erasea", l |-> l, pe |-> q[l][i]] : i \in 1..(Len(q[l]) - 1)} : l \in Lists}
     \cup {[op |-> "reverse", l |-> l] : l \in Lists} \cup {[op |-> "sort", l |-> l] : l \in Lists}
-    \cup {[op |-> "concat", d |-> p[1], src |-> p[2]] : p \in {x \in Lists \X Lists : x[1] # x[2]}}
+    \cup {[op |-> "concat", d |-> p[1], src |-> p[2]] : p \in {x \in Lists \X Lists : x[1] # x[2] /\ s.offk[x[1]] = s.offk[x[2]]}}   \* like-configured lists only
     \cup {[op |-> "swap", a |-> p[1], b |-> p[2]] : p \in {x \in Lists \X Lists : x[1] <= x[2]}}   \* a = b: swapped with itself
     \cup {[op |-> "clear", l |-> l] : l \in Lists}
     \cup (IF probes THEN
